@@ -333,6 +333,17 @@ pub struct Decoder {
     pub keep_mtrace: bool,
     /// number of chunks that arrived on a csid while another csid had a partial message
     pub interleaved_chunks: u64,
+    /// optional per-chunk log (stream offset of the chunk, basic header length, fmt, ext?, payload bytes)
+    pub chunk_log: Option<Vec<ChunkLog>>,
+}
+
+#[derive(Clone, Copy, Debug)]
+pub struct ChunkLog {
+    pub offset: u64,
+    pub bh: u8,
+    pub fmt: u8,
+    pub ext: bool,
+    pub payload: usize,
 }
 
 enum Parse {
@@ -353,6 +364,7 @@ impl Decoder {
             matrix: [[[0; 2]; 2]; 4],
             keep_mtrace: true,
             interleaved_chunks: 0,
+            chunk_log: None,
         }
     }
 
@@ -546,6 +558,9 @@ impl Decoder {
             self.interleaved_chunks += 1;
         }
         self.matrix[fmt as usize][has_ext as usize][continuing as usize] += 1;
+        if let Some(log) = self.chunk_log.as_mut() {
+            log.push(ChunkLog { offset: self.consumed, bh: bh as u8, fmt, ext: has_ext, payload: take });
+        }
 
         let total = hdr + take;
         let chunk_size = self.chunk_size;
